@@ -70,7 +70,7 @@ Example strike3 :
   let post := [EData 1 [1] 1; EEnded 1] in
   project 1 (run (pre ++ fs ++ post) (init Client)) = project 1 (run (pre ++ post) (init Client)) /\
   project 1 (run (pre ++ fs ++ post) (init Client)) =
-    Some (mkCall None (Some [10;11]) [QData [1] 1; QEof] true None false true false true None false 0).
+    Some (mkCall None (Some [10;11]) [QData [1] 1; QEof] true None false true true true None false 0).
 Proof. vm_compute. split; reflexivity. Qed.
 
 (* server side: two handlers, one reset before its wrapper exists, the other served normally *)
@@ -79,7 +79,7 @@ Definition server_trace : list event :=
 
 Example server_values :
   project 1 (run server_trace (init Server)) =
-    Some (mkCall (Some [1]) None [QData [7;7] 2; QEof] true None false false false true None true 0) /\
+    Some (mkCall (Some [1]) None [QData [7;7] 2; QEof] true None false false true true None true 0) /\
   project 3 (run (firstn 3 server_trace) (init Server)) =
     Some (mkCall (Some [3]) None [] false None false false false false None false 1) /\
   project 3 (run server_trace (init Server)) = None.
@@ -107,14 +107,22 @@ Example unknown_frame_in_batch :
             (run [ARegister 1; ARegister 3] (init Client)) [].
 Proof. vm_compute; reflexivity. Qed.
 
-(* what a raising event does to a batch (the only two raising shapes, see raises_exactly):
-   the rest of the read is dropped -- call 3 never gets its headers *)
-Example raising_event_drops_rest_of_batch :
+(* a second StreamReset for a server stream whose task was already popped (h2 never sends one) is
+   harmless now: Handler.cancel pops with a default; the rest of the read reaches the other calls *)
+Example second_reset_is_harmless :
   let s0 := run [ERequest 1 []; ERequest 3 []; EReset 1 true 0] (init Server) in
-  raises s0 (EReset 1 true 0) = true /\
-  option_map cs_queue (project 3 (fst (fst (run_batch [EReset 1 true 0; EData 3 [3] 1] s0 [])))) = Some [] /\
-  option_map cs_queue (project 3 (fst (fst (run_batch [EData 3 [3] 1] s0 [])))) = Some [QData [3] 1].
+  raises s0 (EReset 1 true 0) = false /\
+  option_map cs_cancels (project 1 (step s0 (EReset 1 true 0))) = Some 1%nat /\
+  option_map cs_queue (project 3 (fst (fst (run_batch [EReset 1 true 0; EData 3 [3] 1] s0 [])))) =
+    Some [QData [3] 1].
 Proof. vm_compute. repeat split; reflexivity. Qed.
+
+(* StreamEnded without trailers wakes a reader of the trailers (trailers_received is set, trailers None) *)
+Example ended_without_trailers :
+  option_map recv_ready (project 1 (run [ARegister 1; EResponse 1 [1]; EEnded 1] (init Client))) =
+    Some (true, true, true, false) /\
+  option_map cs_trailers (project 1 (run [ARegister 1; EResponse 1 [1]; EEnded 1] (init Client))) = Some None.
+Proof. vm_compute. split; reflexivity. Qed.
 
 Example no_raise_on_mixed : no_raise mixed (init Client) = true.
 Proof. vm_compute; reflexivity. Qed.
@@ -133,26 +141,16 @@ Example reregister :
   option_map cs_req (project 1 (run [ERequest 1 [1]; ERequest 3 [3]; ERequest 1 [2]] (init Server))) = Some (Some [2]).
 Proof. vm_compute. split; reflexivity. Qed.
 
-(* read_isolation is not vacuous: a read carrying three calls and tolerated frames, with a RST_STREAM for
-   call 3 in the middle, never raises, with or without that RST_STREAM *)
-Example read_isolation_hyps :
+(* read_isolation on a concrete read: three calls, tolerated frames, a RST_STREAM for call 3 in the middle *)
+Example read_isolation_example :
   let s0 := run [ARegister 1; ARegister 3; ARegister 5] (init Client) in
   let es1 := [EResponse 1 [1]; EUnknown; EData 3 [3] 1] in
   let es2 := [EData 1 [1;1] 2; EPing; EResponse 5 [5]; EEnded 1] in
-  no_raise (es1 ++ EReset 3 true 8 :: es2) s0 = true /\ no_raise (es1 ++ es2) s0 = true /\
   option_map cs_queue (project 1 (fst (fst (run_batch (es1 ++ EReset 3 true 8 :: es2) s0 [])))) =
-    Some [QData [1;1] 2; QEof].
-Proof. vm_compute. repeat split; reflexivity. Qed.
-
-(* the server form: two handlers in one read, one reset once; the discipline holds and is needed *)
-Example read_isolation_server_hyps :
-  let s0 := run [ERequest 1 [1]; ERequest 3 [3]] (init Server) in
-  let es := [EData 1 [1] 1; EReset 3 true 8; EData 1 [2] 1; EEnded 1] in
-  c_side (st_conn s0) = Server /\
-  forallb (fun x => negb (is_register x)) es = true /\ reset_ids es = [3] /\
-  option_map cs_in_tasks (project 1 s0) = Some true /\ option_map cs_in_tasks (project 3 s0) = Some true /\
-  no_raise es s0 = true /\ no_raise (es ++ [EReset 3 true 8]) s0 = false.
-Proof. vm_compute. repeat split; reflexivity. Qed.
+    Some [QData [1;1] 2; QEof] /\
+  option_map cs_error (project 3 (fst (fst (run_batch (es1 ++ EReset 3 true 8 :: es2) s0 [])))) =
+    Some (Some (RRemoteReset 8)).
+Proof. vm_compute. split; reflexivity. Qed.
 
 (* D21 repaired, as the model shows it: the read [HEADERS(even stream 2); HEADERS(call 1)] refuses and
    releases stream 2 at once, raises nothing, and call 1 gets its headers; an older call that happened to
